@@ -127,6 +127,10 @@ static void m_push(M &m, const MN &e) { m.e[m.n.cnt] = e; ++m.n.cnt; }
 // Digit::stringToNumber is C09's subject.  Queries that do not look at string->number coercion replace it by this
 // constant (never reached on a feasible path there: obs_node does not call the number getters on strings).
 extern "C" unsigned char stub_strtonum(QNumber64 *num, const char *content, unsigned *off, unsigned end) { return 0; }
+// The coercion queries run the real stringToNumber but cut its big-integer power kernels (C09's subject): the assertions
+// on strings with a fraction or an exponent only require the getters to agree with SetNumber, which holds for any
+// deterministic kernel; all-digit strings never reach the kernels.
+extern "C" void stub_pow(unsigned long long *num, unsigned e) {}
 
 // ---------------------------------------------------------------- observers
 static void obs_node(const V &v, const MN &n0) {
